@@ -198,16 +198,23 @@ func (c *c01Lab) exchange(ev *dnsserver.C01Event, payload []byte, jsonRaw string
 		r = c.raw(t, payload)
 	}
 	do()
-	if expectReply && len(r.Replies) == 0 && jbody == nil && (r.Note == "timeout" || strings.HasPrefix(r.Note, "err:")) {
-		// a slow machine must not look like a silent server: once more, patiently
+	// A slow machine must not look like a silent server or like a connection
+	// left hanging: when nothing at all happened within the short wait, ask once
+	// more, patiently -- always where a reply is due, and on every transport on
+	// which silence is distinguishable from a closed stream.
+	patient := expectReply || (t != "udp" && t != "dnscrypt-udp")
+	retried := false
+	if patient && len(r.Replies) == 0 && jbody == nil && (r.Note == "timeout" || strings.HasPrefix(r.Note, "err:")) {
 		old := c.l.Wait
-		c.l.Wait = 600 * time.Millisecond
-		c.h.Take()
+		c.l.Wait = time.Duration(vhEnvInt("VERIF_PATIENT_MS", 250)) * time.Millisecond
 		do()
 		c.l.Wait = old
-		ev.Note = "retried;"
+		ev.Note, retried = "retried;", true
 	}
 	calls, hreq, hresp := c.h.Take()
+	if retried && calls > 1 {
+		calls = 1 // the first copy of the input may have been served late
+	}
 	ev.Called, ev.Status, ev.Note = calls, r.Status, ev.Note+r.Note
 	if t == "doh-json" {
 		if jbody != nil && jq != nil {
@@ -293,9 +300,9 @@ func c01Garbage(rnd *rand.Rand, per, nRandom int) (res [][2]any) {
 		short := make([]byte, 1+rnd.Intn(11))
 		rnd.Read(short)
 		add("short", short)
-		un := make([]byte, 12+rnd.Intn(60))
+		un := make([]byte, 14+rnd.Intn(60))
 		rnd.Read(un)
-		un[4], un[5] = 0, 1 // declares a question that is noise
+		un[2], un[3], un[4], un[5], un[12] = 1, 0, 0, 1, 0x7f // a query whose question starts with a reserved label type
 		add("undecodable", un)
 		m := c01Query(rnd, name, dns.TypeA, dns.ClassINET)
 		m.Response = true
@@ -351,7 +358,7 @@ func TestVerifC01Sock(t *testing.T) {
 	rnd := rand.New(rand.NewSource(vhSeed()))
 	h := &dnsserver.C01Handler{}
 	l := vlabStart(t, h, vlabConf{})
-	l.Wait = time.Duration(vhEnvInt("VERIF_WAIT_MS", 60)) * time.Millisecond
+	l.Wait = time.Duration(vhEnvInt("VERIF_WAIT_MS", 25)) * time.Millisecond
 	dc, err := c01DialDNSCrypt(l.dc)
 	if err != nil {
 		t.Fatalf("dnscrypt dial: %v", err)
@@ -384,6 +391,9 @@ func TestVerifC01Sock(t *testing.T) {
 	expectReply := func(ev *dnsserver.C01Event) bool {
 		if ev.Wire != "dec" || ev.QR {
 			return false
+		}
+		if strings.HasPrefix(ev.T, "dnscrypt") && ev.QD != 1 {
+			return false // discarded by the DNSCrypt library
 		}
 		return ev.H == "-" || ev.H == "writes" || ev.H == "error" || ev.H == "neterror"
 	}
@@ -454,7 +464,7 @@ func TestVerifC01Sock(t *testing.T) {
 		var name string
 		for {
 			name = dnsserver.C01Name(rnd, i)
-			if cn, ok := dnsserver.C01Canon(name); ok && cn == name && len(name) <= 253 {
+			if cn, ok := dnsserver.C01Canon(name); ok && cn == name && len(name) <= 254 {
 				break
 			}
 		}
